@@ -95,7 +95,7 @@ Definition expand_events (t : table) (s : string) (snip : list tline) : list lin
   flat_map (fun e => pair_expand (is_begin 3) (is_end 3) (inst2 t s e) (expand_rows t s e) snip false []) (events_of t s).
 
 Definition expand_states (t : table) (snip : list tline) : list line :=
-  flat_map (fun s => pair_expand (is_begin 2) (is_end 2) (inst1 t s) (expand_events t s) snip false []) (src_states t).
+  flat_map (fun s => pair_expand (is_begin 2) (is_end 2) (inst1 t s) (expand_events t s) snip false []) (tps_states t).
 
 Definition gen_from (tmpl : list tline) (t : table) : list line :=
   pair_expand (is_begin 1) (is_end 1) (inst0 t) (expand_states t) tmpl false [].
